@@ -111,6 +111,11 @@ class C14(Prop):
                     admin.cursor().execute(f"create database {op['db']}")
                 elif k == "mksc":
                     admin.cursor().execute(f"create schema {op['db']}.{op['sc']}")
+                elif k == "rmsc":
+                    for c in [c for c in sessions if (c.database, c.schema) == (op["db"], op["sc"])]:
+                        c.close()
+                        sessions.remove(c)
+                    admin.cursor().execute(f"drop schema {op['db']}.{op['sc']}")
                 elif k == "connect":
                     kw = {}
                     d, s = spell(op["db"], op["dbcase"]), spell(op["sc"], op["sccase"])
